@@ -28,10 +28,15 @@ def http_tables(sc):
 
 
 HTTP_RUN = {"harness": "hhttp", "driver": "httpdrv", "fields": ["cache", "err", "st", "msgs"], "corpus": "http",
-            "quick": {"n": 1500, "shards": 16}, "thorough": {"n": 40000, "shards": 32}}
+            "quick": {"n": 1500, "shards": 16}, "thorough": {"n": 12000, "shards": 32}}
 
 C07_RUN = {"harness": "hhttp7", "driver": "httpdrv", "fields": ["render", "err", "cache", "st", "nb", "offs", "ref"], "corpus": "http7",
-           "quick": {"n": 700, "shards": 16}, "thorough": {"n": 20000, "shards": 32}}
+           "quick": {"n": 700, "shards": 16}, "thorough": {"n": 6000, "shards": 32}}
+
+# engine-level "nothing further after an error" (DESIGN 8 #12): real nbhttp engines over loopback in the three I/O modes;
+# implementation-only stream (the Lean side is theorem c08_silent_after_close), so no k=v field is compared
+ENGINE_RUN = {"harness": "hhttpe", "driver": "httpdrv", "fields": [],
+              "quick": {"n": 6, "shards": 3, "timeout": 600}, "thorough": {"n": 60, "shards": 8, "timeout": 1800}}
 
 PROPS = {
     "C07": {
@@ -81,9 +86,9 @@ PROPS = {
                     "<= max(ReadLimit, one read); differential correspondence plus panic/bound/after-error oracles on arbitrary and mutated bytes",
             "note": "model fidelity sampled; panics observed through the parser's recover log line; engine glue after an error modelled as CloseAndClean",
             "technique": "Lean 4 proof (invariants by induction over the input) + differential correspondence"},
-        "lean": ["NbioVerif.Properties.C08", "NbioVerif.Lemmas.HttpTables"], "drivers": ["httpdrv"], "harness": ["hhttp"],
+        "lean": ["NbioVerif.Properties.C08", "NbioVerif.Lemmas.HttpTables"], "drivers": ["httpdrv"], "harness": ["hhttp", "hhttpe"],
         "facts": [http_tables],
-        "runs": [HTTP_RUN],
+        "runs": [HTTP_RUN, ENGINE_RUN],
         "oracles": ["c08-"],
         "rule": "same stream as C06 (random bytes, grammar messages and six+ mutation operators, limits drawn around the sizes); "
                 "non-trivial iff bytes were retained across calls or an error was returned",
